@@ -32,6 +32,8 @@ class VBytearray:
 
     # -- helpers
     def _check_byte(self, v):
+        if type(v).__name__ == 'GFLin':
+            return v       # a GF(256) element is a byte by construction
         if isinstance(v, SInt):
             if v.lo is not None and v.hi is not None and v.lo >= 0 and v.hi <= 255:
                 return v
@@ -377,3 +379,31 @@ class CountedList:
             if k == v:
                 t = t + c
         return t
+
+
+class OpaqueSeq:
+    """list of opaque elements of symbolic length (e.g. the segments of a Segments
+    object in glue contracts); only len() and in-order iteration (with a loop
+    contract) are supported"""
+
+    def __init__(self, name, length):
+        self.name = name
+        self.length = length
+
+    def at(self, k):
+        return OpaqueElem(self, k)
+
+
+class OpaqueElem:
+    def __init__(self, seq, index):
+        self.seq = seq
+        self.index = index
+
+
+class OpaqueIter:
+    def __init__(self, seq):
+        self.seq = seq
+        self.length = seq.length
+
+    def at(self, k):
+        return OpaqueElem(self.seq, k)
